@@ -373,14 +373,18 @@ funcalloc(struct func *f, struct decl *d)
 {
 	enum instkind op;
 	struct block *end;
+	struct jump jump;
 	struct value *v;
 	int align;
 
 	assert(!d->type->incomplete);
 	funcvla(f, d->type);
 	end = f->end;
+	jump = f->start->jump;
 	if (d->type->size) {
+		/* hoist into the start block, ahead of its jump if the size expressions of a parameter already ended it */
 		f->end = f->start;
+		f->start->jump.kind = JUMP_NONE;
 		v = mkintconst(d->type->size);
 	} else {
 		assert(d->type->kind == TYPEARRAY);
@@ -403,6 +407,7 @@ funcalloc(struct func *f, struct decl *d)
 		v = funcinst(f, IAND, ptrclass, v, mkintconst(-align));
 	}
 	d->value = v;
+	f->start->jump = jump;
 	f->end = end;
 }
 
